@@ -153,6 +153,10 @@ theorem receive_on_closed_session_returns (s : St) (t : Tid) (fuel : Nat)
     · exact ⟨_, _, rfl, Or.inl rfl⟩
   · exact ⟨_, _, rfl, Or.inl rfl⟩
 
+-- the hypotheses are reachable: after a completed close() the session is closed and nobody is receiving
+example : (run (init {}) [.call 0 (.close 1000), .tick]).closed = true ∧
+    (run (init {}) [.call 0 (.close 1000), .tick]).waiting = false := by decide +kernel
+
 /-! ## findings on the unchanged code, as kernel-checked runs of the model
 (each is also reproduced on the real objects by the harness: `harness/c13.py`, "directed-findings") -/
 
@@ -279,5 +283,47 @@ theorem cli_close_abnormal_exit (s : St) (t : Tid) (e : Exc) :
   · split <;> rw [(closeReturn_fields _ _ _).1, (cliRespClose_spec _).1]
   · intro h
     split <;> rw [(closeReturn_fields _ _ _).2] <;> exact (cliRespClose_spec _).2 h
+
+/-! ## the wait for the peer's CLOSE is timed -/
+
+theorem mem_insertTimer (w : Nat) (cb : Cb) (l : List (Nat × Cb)) : (w, cb) ∈ insertTimer w cb l := by
+  induction l with
+  | nil => simp [insertTimer]
+  | cons p rest ih =>
+    obtain ⟨w', cb'⟩ := p
+    simp only [insertTimer]
+    split
+    · exact List.mem_cons_of_mem _ ih
+    · exact List.mem_cons_self
+
+/-- **Server close() never waits for the peer without a deadline**: when it has to park for the peer's
+CLOSE (nothing usable buffered, no EOF), a timer for this task at `now + closeTimeout` is armed, and the
+task is the queue's waiter — so the peer's CLOSE, EOF, a reader error or the timer will resume it.
+(`close_returns_within` proper — a bound over whole runs — is not proved; see the note above.) -/
+theorem srv_close_wait_is_timed (s : St) (t : Tid) (hc : s.closing = false) (hb : scanClose s.buf = none)
+    (he : s.eof = false) (hw : s.rwaiter = none) :
+    (s.now + s.cfg.closeTimeout, Cb.timeout t) ∈ (srvCloseAfterWait s t).timers ∧
+    (srvCloseAfterWait s t).rwaiter = some t := by
+  have hb' : scanClose (armTmo s t s.cfg.closeTimeout).buf = none := by simpa [armTmo, setT] using hb
+  unfold srvCloseAfterWait
+  simp only [hc, Bool.false_eq_true, ↓reduceIte]
+  unfold srvCloseRead
+  simp only [hb']
+  simp [armTmo, setT, he, hw, park, Pc.isDrain, mem_insertTimer]
+
+-- reachable: close() on a fresh open session parks for the peer's CLOSE
+example : (init {}).closing = false ∧ scanClose (init {}).buf = none ∧ (init {}).eof = false ∧
+    (init {}).rwaiter = none := by decide +kernel
+
+/-- The client arms the same deadline — but on *every* entry of its read loop (after each message that is
+not a CLOSE), which is finding `client_close_timeout_restarts_per_message`. -/
+theorem cli_close_wait_is_timed (s : St) (t : Tid) (hb : scanClose s.buf = none)
+    (he : s.eof = false) (hw : s.rwaiter = none) :
+    (s.now + s.cfg.closeTimeout, Cb.timeout t) ∈ (cliCloseRead s t).timers ∧
+    (cliCloseRead s t).rwaiter = some t := by
+  have hb' : scanClose (armTmo s t s.cfg.closeTimeout).buf = none := by simpa [armTmo, setT] using hb
+  unfold cliCloseRead
+  simp only [hb']
+  simp [armTmo, setT, he, hw, park, Pc.isDrain, mem_insertTimer]
 
 end Aio.C13
